@@ -3,10 +3,15 @@
 
 use std::io::{self, BufRead, Write};
 
+mod alloc;
 mod cell;
+mod tape;
 mod dump;
 mod vio;
 mod run;
+
+#[global_allocator]
+static GLOBAL: alloc::VAlloc = alloc::VAlloc;
 
 fn main() {
     let stdin = io::stdin();
@@ -20,7 +25,10 @@ fn main() {
         let fields: Vec<&str> = line.split('|').collect();
         let res = match fields[0] {
             "cell" => cell::run(&fields[1..]),
+            "tape" => tape::run(&fields[1..]),
+            "tapefail" => tape::run_fail(&fields[1..]),
             "run" => run::run(&fields[1..]),
+            "runfail" => run::runfail(&fields[1..]),
             "runs" => run::runs(&fields[1..]),
             "dumpir" => run::dumpir(&fields[1..]),
             "dumpbc" => run::dumpbc(&fields[1..]),
